@@ -164,6 +164,18 @@ theorem refSolve_optimal_spec {m : Model (Ext K)} {v : K} {w : List (String × K
     obtain ⟨a, hmem', _, hobj⟩ := feasible_has_representative ha hc hf
     exact hbest (v', a) (mem_valList.2 ⟨hmem', by rw [hobj, hv']⟩)
 
+/-- when the reference answers `optimal`, the objective is DEFINED at every assignment that satisfies the model (otherwise
+the verdict would have been `undefinedObjective`). -/
+theorem refSolve_optimal_objective_defined {m : Model (Ext K)} {v : K} {w : List (String × K)}
+    (h : refSolve m = .optimal v w) (hc : Closed m = true) {ρ : String → K} (hf : srcFeasible m ρ = true) :
+    (eval ρ m.objective).isSome = true := by
+  have hout := refSolve_outcome m
+  rw [h] at hout
+  cases hout with
+  | optimal asg _ _ ha _ _ hall _ =>
+    obtain ⟨a, hmem, _, hobj⟩ := feasible_has_representative ha hc hf
+    rw [← hobj]; exact hall a hmem
+
 /-- the same in order notation: a reported minimum is `≤`, a reported maximum `≥`, the objective of every
 assignment that satisfies the model. -/
 theorem refSolve_optimal_le {m : Model (Ext K)} {v : K} {w : List (String × K)}
